@@ -154,6 +154,62 @@ fn run_clone_from(a: &str, b: &str) -> CaseOut {
     }
 }
 
+// ---- inputs that end exactly at an unreadable page: "no conversion reads outside the input"
+extern "C" {
+    fn mmap(addr: *mut std::ffi::c_void, len: usize, prot: i32, flags: i32, fd: i32, off: i64) -> *mut std::ffi::c_void;
+    fn mprotect(addr: *mut std::ffi::c_void, len: usize, prot: i32) -> i32;
+    fn munmap(addr: *mut std::ffi::c_void, len: usize) -> i32;
+}
+const PAGE: usize = 4096;
+
+/// Runs `f` on a copy of `bytes` whose last byte is the last readable byte before a PROT_NONE page (and, second run, whose
+/// first byte is the first readable byte after one). A read outside the input faults; the driver attributes the death of
+/// the process to this case.
+fn with_guarded_input<T>(bytes: &[u8], mut f: impl FnMut(&[u8]) -> T) -> Vec<T> {
+    let mut out = Vec::new();
+    unsafe {
+        // linux x86-64 / aarch64: PROT_READ|PROT_WRITE = 3, MAP_PRIVATE|MAP_ANONYMOUS = 0x22
+        let base = mmap(std::ptr::null_mut(), 3 * PAGE, 3, 0x22, -1, 0) as *mut u8;
+        assert!(!base.is_null() && base as isize != -1, "mmap failed");
+        assert_eq!(mprotect(base as *mut _, PAGE, 0), 0);
+        assert_eq!(mprotect(base.add(2 * PAGE) as *mut _, PAGE, 0), 0);
+        let mid = base.add(PAGE);
+        // (a) input ends at the upper guard
+        let at = mid.add(PAGE - bytes.len());
+        std::ptr::copy_nonoverlapping(bytes.as_ptr(), at, bytes.len());
+        out.push(f(std::slice::from_raw_parts(at, bytes.len())));
+        // (b) input starts right after the lower guard
+        std::ptr::write_bytes(mid, 0x41, PAGE);
+        std::ptr::copy_nonoverlapping(bytes.as_ptr(), mid, bytes.len());
+        out.push(f(std::slice::from_raw_parts(mid, bytes.len())));
+        munmap(base as *mut _, 3 * PAGE);
+    }
+    out
+}
+
+fn bounds_case(s: &str) -> CaseOut {
+    let want: &str = s.split('\0').next().unwrap();
+    let r = guarded(|| {
+        let mut bad: Option<(String, String)> = None;
+        for got in with_guarded_input(s.as_bytes(), |b| AsRef::<str>::as_ref(&ReprCString::from(b)).to_string()) {
+            if got != want && bad.is_none() {
+                bad = Some(("cstring:bounds_value".into(), format!("From<&[u8]> of {:?} placed next to an unreadable page reads back {:?}", s, got)));
+            }
+        }
+        for got in with_guarded_input(s.as_bytes(), |b| AsRef::<str>::as_ref(&ReprCString::from(std::str::from_utf8(b).unwrap())).to_string()) {
+            if got != want && bad.is_none() {
+                bad = Some(("cstring:bounds_value".into(), format!("From<&str> of {:?} placed next to an unreadable page reads back {:?}", s, got)));
+            }
+        }
+        bad
+    });
+    match r {
+        Err(()) => CaseOut::bad("panic", "panicked"),
+        Ok(Some(v)) => CaseOut { obs: 0, nontrivial: true, violation: Some(v) },
+        Ok(None) => CaseOut { obs: digest(&s), nontrivial: !s.is_empty(), violation: None },
+    }
+}
+
 fn all_strings(l: usize) -> Vec<String> {
     let k = SYMBOLS.len();
     let mut out = Vec::new();
@@ -217,12 +273,23 @@ fn main() {
         }),
         replay: Box::new(|c: &Value| run_clone_from(c["a"].as_str().unwrap(), c["b"].as_str().unwrap())),
     };
+    let bounds = Section {
+        name: "input_bounds",
+        explore: Box::new(|cx: &Cx| {
+            let l = cx.tier.pick(4, 5);
+            cx.rule("input_bounds", &format!("every string of <= {} symbols over the same alphabet, as &[u8] and as &str, placed so that its last byte is the last readable byte before an unreadable page and so that its first byte follows one: the conversion must not read outside the input (a read beyond it kills the process, which the driver attributes to the case) and reads back the prefix", l));
+            for s in all_strings(l) {
+                cx.eval("input_bounds", &json!({"input": s}), || bounds_case(&s));
+            }
+        }),
+        replay: Box::new(|c: &Value| bounds_case(c["input"].as_str().unwrap())),
+    };
     explore::run_main(CheckDef {
         property: "C14",
         level: "exploration",
         assumptions: vec!["inputs longer than the bound are not covered".into(), "the tracking allocator's red zone (0xA5.., NUL-terminated) makes an over-read terminate deterministically".into()],
         sections: vec![mk("from_str", Ctor::Str), mk("from_string", Ctor::String), mk("from_bytes", Ctor::Bytes),
-            mk("from_string_spare1", Ctor::StringSpare1), mk("from_string_spare7", Ctor::StringSpare7), mk("from_string_spare64", Ctor::StringSpare64), clone_from],
+            mk("from_string_spare1", Ctor::StringSpare1), mk("from_string_spare7", Ctor::StringSpare7), mk("from_string_spare64", Ctor::StringSpare64), clone_from, bounds],
         no_isolation: false,
     });
 }
